@@ -727,10 +727,21 @@ func groupPatterns(tier string) []string {
 // expectedGroups computes the documented numbering from the independent parse.
 // order=true: MaintainCaptureOrder (pure pattern order).
 func expectedGroups(text string, options int, order bool) (nums []int, names []string, firstNamed string, firstNamedNum int, ok bool) {
+	nums, names, firstNamed, firstNamedNum, _, ok = expectedGroupsAST(text, options, order)
+	return
+}
+
+// expectedGroupsAST additionally returns the reference AST with the group numbers of the documented rule.
+func expectedGroupsAST(text string, options int, order bool) (nums []int, names []string, firstNamed string, firstNamedNum int, sexpr string, ok bool) {
 	ast, _, err := patterns.Parse(text, options)
 	if err != nil {
-		return nil, nil, "", 0, false
+		return nil, nil, "", 0, "", false
 	}
+	defer func() {
+		if ok && ast.InFragmentC01() {
+			sexpr = ast.Sexpr()
+		}
+	}()
 	type g struct {
 		num  int
 		name string
@@ -778,7 +789,7 @@ func expectedGroups(text string, options int, order bool) (nums []int, names []s
 		nums = append(nums, x.num)
 		names = append(names, x.name)
 	}
-	return nums, names, firstNamed, firstNamedNum, true
+	return nums, names, firstNamed, firstNamedNum, "", true
 }
 
 func joinInts(xs []int) string {
@@ -824,7 +835,7 @@ func init() {
 					if order && (containsDigitName(p)) {
 						continue // explicit numbers under MaintainCaptureOrder: undocumented interaction, not generated
 					}
-					nums, names, fn, fnum, ok := expectedGroups(p, cfg.o, order)
+					nums, names, fn, fnum, sexpr, ok := expectedGroupsAST(p, cfg.o, order)
 					if !ok {
 						continue
 					}
@@ -837,6 +848,9 @@ func init() {
 						}
 					}
 					extra := map[string]string{"nums": joinInts(nums), "names": joinStrs(names)}
+					if sexpr != "" {
+						extra["ast"] = sexpr
+					}
 					if fn != "" {
 						extra["pattern_byname"] = "(?:" + p + `)\k<` + fn + `>`
 						extra["pattern_bynumber"] = "(?:" + p + `)\` + itoa(fnum)
@@ -851,7 +865,7 @@ func init() {
 			return us
 		},
 		Rule:      "For each (group-mix pattern, mode in {default, MaintainCaptureOrder, RE2, ExplicitCapture, ECMAScript}, n): the expected numbering is computed from an independent parse by the documented rule; GetGroupNumbers/Names, both look-ups and unknown look-ups are asserted (concrete); with n symbolic runes, on every feasible path the order and names of Match.Groups, GroupByName/Number, and equality of the pattern followed by \\k<name> vs \\<number> are asserted.",
-		Witnesses: []string{"match", "nomatch", "backref-leg", "end"},
+		Witnesses: []string{"match", "nomatch", "backref-leg", "spec-leg", "end"},
 	})
 }
 
@@ -1319,6 +1333,13 @@ func init() {
 						}
 					}
 				}
+				// the Regexp's own earlier call is aborted by its stack limit after inner groups have captured
+				if lt := map[string]string{`(a)|b`: "", `(?:(a)|b)*c`: "abababababababababababababababab", `(a*)(b)?`: "", `(?<o>a)+(?<-o>b)+(?(o)(?!))`: "aaaaaaaaaaaaaaaaaaaaaaaaaaaaaaaaaaaaaaaaaaaaaaaaaaaaaaaaaaaab"}[p.a]; lt != "" {
+					for _, op := range []string{"fs", "ms", "rp"} {
+						params := map[string]string{"pattern": p.a, "pattern_b": p.b, "options": "0", "copts": "", "n": itoa(n), "hn": "0", "op": op, "history": "selflim", "limtext": lt, "key_extra": op + "/selflim"}
+						us = append(us, Unit{ID: fmt.Sprintf("C12/%s/%s/after/selflim", p.a, op), Harness: "history", Params: params})
+					}
+				}
 				// sizes crossing the pooled buffer classes (1K runes): history on a large text, then a small one, and vice versa
 				for _, cfg := range [][3]string{{"1100", "0", "fs"}, {"0", "1100", "ms"}, {"1100", "1100", "rp"}, {"4200", "0", "fa"}} {
 					if tier != "thorough" && pi%3 != 0 {
@@ -1331,7 +1352,7 @@ func init() {
 			return us
 		},
 		Rule: "For each (pattern pair, final call, history): (1) histories of <= 2 earlier calls (bool, find+iterate, find-all, Replace with two replacement patterns, ReplaceFunc, Split, a match that hits the stack limit, calls on another Regexp sharing the global pools) on symbolic texts, the modelled sync.Pool always handing back the most recently returned runner/buffer; (2) one inductive step: after a call the pooled runner's stacks, crawl, positions, code position and retained match arrays are replaced by fresh solver variables (havoc) under the representation invariant; then the final call on a symbolic text; on every feasible path its result equals the same call on a never-used Regexp compiled from the same pattern.",
-		Witnesses: []string{"havoc", "history-hit-limit", "end"},
+		Witnesses: []string{"havoc", "havoc-runmatch", "history-hit-limit", "history-hit-own-limit", "end"},
 	})
 }
 
